@@ -536,7 +536,7 @@ Definition past_inv (s : dst) (t : tid) (p : phase) (A : list attempt) : Prop :=
   | Panicked => True
   | Live d =>
       match p with
-      | PIdle => A = []
+      | PIdle => A = [] /\ lookup t (d_running d) = None
       | PRunning _ | PDelay _ | PRefusedRetry _ => lookup t (d_running d) = Some A
       | _ => True
       end
@@ -604,7 +604,7 @@ Proof.
         destruct p; try discriminate. injection Hu as <-. split; [exact I|intros ? ? ? ? []].
       * destruct (lookup t (d_running d)) eqn:El; injection Hd as <- <- <-; cbn [r_hs mk_resp] in Hu.
         -- split; [exact I|intros ? ? ? ? []].
-        -- destruct p; try discriminate. injection Hu as <-. cbn [past_inv] in *. subst A.
+        -- destruct p; try discriminate. injection Hu as <-. cbn [past_inv] in *. destruct Hinv as [-> _].
            split; [cbn [d_running set_running]; apply lookup_cons_eq|].
            intros ? ? ? ? [H|[]]; discriminate.
     + destruct (is_some (d_cancel d)); [injection Hd as <- <- _; split; [exact Hinv|intros ? ? ? ? []]|].
@@ -761,7 +761,7 @@ Proof.
                 Hsel eq_refl Hrun) as Hph.
   rewrite <- Hproj in Hph.
   destruct (finished_statuses (cfg_of_lsystem S) t h (Live (init_for (cfg_of_lsystem S) mf dbg)) PIdle [] _
-              eq_refl Hph sts st rn cs Hin) as [Hst Hpf].
+              (conj eq_refl eq_refl) Hph sts st rn cs Hin) as [Hst Hpf].
   cbn [app] in Hst. rewrite Hproj in Hst.
   destruct (projection_reports_life_log unicast tbl (ls_fd S t) t (ls_cfg S t) es y Hrun) as [H1 H2].
   split; [rewrite Hst; exact H1|]. split; [rewrite Hst, H1; exact H2|].
